@@ -37,16 +37,15 @@ theorem ext_setMemo {P s t r m m'} (hI : Inv P s) (hm : s.memos r = some m) (hv 
 theorem markVerified_eq (s q m) :
     markVerified s q m = emit (setMemo s q { m with va := s.cur }) (.valid q) := rfl
 
-theorem markDeepVerified_eq (s q m) :
-    markDeepVerified s q m = emit (setMemo s q { m with va := s.cur, deepAt := s.cur }) (.valid q) := rfl
+theorem markDeepVerified_eq (s q m ai) :
+    markDeepVerified s q m ai = emit (setMemo s q { m with va := s.cur, deepAt := s.cur, accIn := ai }) (.valid q) := rfl
 
 theorem fetchStep_ok {P r fe mc} (hP : Wf P) (hfe : FetchSpec P r fe) (hmc : McaSpec P r mc)
     (s : State) (hI : Inv P s) :
     Inv P (fetchStep fe mc P s r).1 ∧ Ext s (fetchStep fe mc P s r).1 (r + 1) ∧
     (fetchStep fe mc P s r).2.val = sem P s.inp r ∧
     ∃ m, (fetchStep fe mc P s r).1.memos r = some m ∧ m.va = s.cur ∧
-      m.value = (fetchStep fe mc P s r).2.val ∧ m.ca = (fetchStep fe mc P s r).2.ca ∧
-      m.dur = (fetchStep fe mc P s r).2.dur := by
+      m.res = (fetchStep fe mc P s r).2 := by
   unfold fetchStep
   cases hm : s.memos r with
   | none =>
@@ -58,7 +57,7 @@ theorem fetchStep_ok {P r fe mc} (hP : Wf P) (hfe : FetchSpec P r fe) (hmc : Mca
     have mok := hI.memo r m hm
     by_cases hv : m.va = s.cur
     · simp only [hv, if_true]
-      exact ⟨hI, Ext.refl s _, fresh_of_sok hP hI r m hm (Or.inl hv), m, hm, hv, rfl, rfl, rfl⟩
+      exact ⟨hI, Ext.refl s _, fresh_of_sok hP hI r m hm (Or.inl hv), m, hm, hv, rfl⟩
     · simp only [hv, if_false]
       by_cases hsh : lc s m.dur ≤ m.va
       · -- shallow verification by durability
@@ -70,7 +69,8 @@ theorem fetchStep_ok {P r fe mc} (hP : Wf P) (hfe : FetchSpec P r fe) (hmc : Mca
           · exact absurd hsh (Nat.not_le.mpr h)
         have hok : MemoOk P (setMemo s r { m with va := s.cur }) r { m with va := s.cur } := by
           refine ⟨Nat.le_trans mok.ca_va mok.va_cur, Nat.le_refl _, hI.cur1,
-            Nat.le_trans mok.deep_va mok.va_cur, mok.dur3, mok.rep, ?_, ?_, Or.inl hdeep, ?_, ?_, ?_, ?_⟩
+            Nat.le_trans mok.deep_va mok.va_cur, mok.dur3, mok.rep, mok.repAcc, ?_, ?_, Or.inl hdeep, ?_, ?_, ?_, ?_,
+            ?_, ?_⟩
           · intro o ho x hinfo _
             rw [depInfo_setMemo_other _ _ _ (obs_ne_self hI hm ho)] at hinfo
             exact mok.i2 o ho x hinfo ((mok.i3 hsok o ho).1 x hinfo)
@@ -94,10 +94,17 @@ theorem fetchStep_ok {P r fe mc} (hP : Wf P) (hfe : FetchSpec P r fe) (hmc : Mca
             rw [depInfo_setMemo_other _ _ _ (obs_ne_self hI hm ho)] at hinfo
             left
             exact Nat.le_trans ((mok.i3 hsok o ho).1 x hinfo) mok.va_cur
+          · intro _ ha o ho x hinfo
+            rw [depInfo_setMemo_other _ _ _ (obs_ne_self hI hm ho)] at hinfo
+            exact mok.a2 hsok ha o ho x hinfo
+          · intro o ho hr x hinfo
+            rw [depInfo_setMemo_other _ _ _ (obs_ne_self hI hm ho)] at hinfo
+            exact mok.a3 o ho hr x hinfo
         have hobs := hobs_same (q := r) (mo := m) hI hm { m with va := s.cur } rfl rfl (Nat.le_refl _)
+          (Or.inl ⟨rfl, rfl⟩)
         have hinv := inv_setMemo (q := r) (m' := { m with va := s.cur }) hI hok rfl hobs
         exact ⟨inv_emit _ hinv, (ext_setMemo (m' := { m with va := s.cur }) hI hm hv (Ext.refl s r) rfl rfl).emit _,
-          fresh_of_sok hP hI r m hm hsok, _, setMemo_same _ _ _, rfl, rfl, rfl, rfl⟩
+          fresh_of_sok hP hI r m hm hsok, _, setMemo_same _ _ _, rfl, rfl⟩
       · simp only [hsh, if_false]
         have hpre : ∀ o q', o ∈ m.obs → o.dep = .qry q' → q' < r ∧ ∃ m', s.memos q' = some m' := by
           intro o q' ho hd
@@ -107,7 +114,7 @@ theorem fetchStep_ok {P r fe mc} (hP : Wf P) (hfe : FetchSpec P r fe) (hmc : Mca
         generalize hs1 : deepEdges mc m.obs s m.va = t at d1 d2 d3 d4
         have hm1 : t.1.memos r = some m := by rw [d2.above r (Nat.le_refl r)]; exact hm
         have mok1 := d1.memo r m hm1
-        cases hres : t.2 with
+        cases hres : t.2.1 with
         | true =>
           simp only [if_true, markDeepVerified_eq]
           have facts := d3 hres
@@ -117,17 +124,17 @@ theorem fetchStep_ok {P r fe mc} (hP : Wf P) (hfe : FetchSpec P r fe) (hmc : Mca
             intro o ho x hinfo
             cases hr : o.recd with
             | true =>
-              obtain ⟨hh, x', hi', hc'⟩ := facts o ho hr
+              obtain ⟨hh, x', hi', hc', _⟩ := facts o ho hr
               rw [hinfo] at hi'; cases hi'
               obtain ⟨a, b⟩ := mok1.i2 o ho x hinfo hc'
               exact ⟨a, b, sokDep_of_hot hh⟩
             | false =>
               obtain ⟨a, b⟩ := mok1.i6 o ho hr x hinfo
               exact ⟨a, Nat.le_trans mok1.dur3 b, sokDep_of_never d1 hinfo b⟩
-          have hok : MemoOk P (setMemo t.1 r { m with va := t.1.cur, deepAt := t.1.cur }) r
-              { m with va := t.1.cur, deepAt := t.1.cur } := by
+          have hok : MemoOk P (setMemo t.1 r { m with va := t.1.cur, deepAt := t.1.cur, accIn := t.2.2 }) r
+              { m with va := t.1.cur, deepAt := t.1.cur, accIn := t.2.2 } := by
             refine ⟨Nat.le_trans mok1.ca_va mok1.va_cur, Nat.le_refl _, d1.cur1, Nat.le_refl _, mok1.dur3,
-              mok1.rep, ?_, ?_, Or.inl (d1.lc_le _), ?_, ?_, ?_, ?_⟩
+              mok1.rep, mok1.repAcc, ?_, ?_, Or.inl (d1.lc_le _), ?_, ?_, ?_, ?_, ?_, ?_⟩
             · intro o ho x hinfo _
               rw [depInfo_setMemo_other _ _ _ (obs_ne_self d1 hm1 ho)] at hinfo
               exact ⟨(hall o ho x hinfo).1, (hall o ho x hinfo).2.1⟩
@@ -158,14 +165,30 @@ theorem fetchStep_ok {P r fe mc} (hP : Wf P) (hfe : FetchSpec P r fe) (hmc : Mca
             · intro o ho x hinfo
               rw [depInfo_setMemo_other _ _ _ (obs_ne_self d1 hm1 ho)] at hinfo
               left; exact depInfo_ca_le d1 hinfo
-          have hobs := hobs_same (q := r) (mo := m) d1 hm1 { m with va := t.1.cur, deepAt := t.1.cur }
-            rfl rfl (Nat.le_refl _)
-          have hinv := inv_setMemo (q := r) (m' := { m with va := t.1.cur, deepAt := t.1.cur }) d1 hok rfl hobs
+            · intro _ ha o ho x hinfo
+              rw [depInfo_setMemo_other _ _ _ (obs_ne_self d1 hm1 ho)] at hinfo
+              cases hr : o.recd with
+              | true =>
+                obtain ⟨_, x', hi', _, hfl⟩ := facts o ho hr
+                rw [hinfo] at hi'; cases hi'
+                exact hfl ha
+              | false => exact mok1.a3 o ho hr x hinfo
+            · intro o ho hr x hinfo
+              rw [depInfo_setMemo_other _ _ _ (obs_ne_self d1 hm1 ho)] at hinfo
+              exact mok1.a3 o ho hr x hinfo
+          have hns1 : ¬ SOK t.1 m := by
+            intro h
+            rcases h with h | h
+            · rw [d2.cur] at h; exact hv h
+            · rw [d2.lc] at h; exact hsh h
+          have hobs := hobs_same (q := r) (mo := m) d1 hm1 { m with va := t.1.cur, deepAt := t.1.cur, accIn := t.2.2 }
+            rfl rfl (Nat.le_refl _) (Or.inr hns1)
+          have hinv := inv_setMemo (q := r) (m' := { m with va := t.1.cur, deepAt := t.1.cur, accIn := t.2.2 }) d1 hok rfl hobs
           have hval : m.value = sem P s.inp r := by
             have := fresh_of_sok hP hinv r _ (setMemo_same _ _ _) (Or.inl rfl)
             simpa [d2.inp] using this
-          exact ⟨inv_emit _ hinv, (ext_setMemo (m' := { m with va := t.1.cur, deepAt := t.1.cur }) hI hm hv d2 d2.cur rfl).emit _, hval, _,
-            setMemo_same _ _ _, d2.cur, rfl, rfl, rfl⟩
+          exact ⟨inv_emit _ hinv, (ext_setMemo (m' := { m with va := t.1.cur, deepAt := t.1.cur, accIn := t.2.2 }) hI hm hv d2 d2.cur rfl).emit _, hval, _,
+            setMemo_same _ _ _, d2.cur, rfl⟩
         | false =>
           simp only [Bool.false_eq_true, if_false]
           obtain ⟨pre, o, post, x, e1, e1r, e2, e3, e4, e5⟩ := d4 hres
@@ -198,7 +221,7 @@ theorem fetchStep_ok {P r fe mc} (hP : Wf P) (hfe : FetchSpec P r fe) (hmc : Mca
                 obtain ⟨a, b⟩ := mok1.i6 o' hin hr x' hx'
                 rw [semDep_of_stored hP d1 hx' (sokDep_of_never d1 hx' b)]
                 exact a
-            have hle := run_prefix hfe pre (P r) (emit t.1 (.exec r)) frame0 o post x (hP r) (inv_emit _ d1)
+            have hle := run_prefix hfe (P r) (hP r) pre (emit t.1 (.exec r)) frame0 o post x (inv_emit _ d1)
               (by show 1 ≤ t.1.cur; rw [d2.cur]; exact hI.cur1) hrep hpre' ((hot_emit _ _ _).mpr e3)
               (by rw [depInfo_emit]; exact e4)
             rcases mok1.i10 o hoin x e4 with h | ⟨w, d, a, b, c, e⟩
@@ -207,7 +230,7 @@ theorem fetchStep_ok {P r fe mc} (hP : Wf P) (hfe : FetchSpec P r fe) (hmc : Mca
           obtain ⟨x1, x2, x3, x4⟩ := execute_ok hP hfe t.1 (some m) d1 hm1 hstale hnsok hback
           refine ⟨x1, ?_, by rw [x3, d2.inp], ?_⟩
           · exact Ext.trans (d2.weaken (Nat.le_succ r)) x2
-          · obtain ⟨m2, y1, y2, y3, y4, y5⟩ := x4
-            exact ⟨m2, y1, by rw [y2, d2.cur], y3, y4, y5⟩
+          · obtain ⟨m2, y1, y2, y3⟩ := x4
+            exact ⟨m2, y1, by rw [y2, d2.cur], y3⟩
 
 end SalsaVerif.Proofs.CoreAcc
